@@ -13,6 +13,12 @@ CHECKS = {
  "C03": dict(cat="exploration", engine="seq-sweep", tech="bounded-exhaustive enumeration of inputs x selectors in two build profiles; oracle = the call returns; crashes attributed per subprocess shard",
    text="Every case of the stated families (all small n, all small semiprimes/triples/prime powers, word-boundary edge set, large primes/squares, oversize inputs) x all ten selectors is run in the optimised profile and in the profile with debug assertions and overflow checks; any panic (with its source site), abort, stack overflow or timeout is a violation keyed by (selector, profile, site).",
    note="Trusted: per-case wall cap distinguishes 'does not terminate' only up to the cap; inputs whose sieve set-up alone takes minutes (> 256-bit hard composites) are not driven.", ref="3/C03"),
+ "C04": dict(cat="model_checking", engine="loom", tech="stateless model checking of the real multi-threaded code under loom (DPOR, preemption-bounded exhaustive interleaving exploration, C11 memory model)",
+   text="The unmodified bodies of factor()/siqs()/mpqs()/qsieve()/ecm() run inside loom::model with the crate's rayon pool, RwLock and atomics replaced by loom objects; for each of 12 contention scenarios (2-3 workers, tiny inputs that still complete, single/double large primes, an input that finishes below the factor-base size, reversed/rotated item orders) loom enumerates every interleaving of the workers' synchronisation operations within the preemption bound (quick: 1; thorough: 2-3) and the oracle (no panic/deadlock, product n, result equal to the single-threaded result) is checked on every execution.",
+   note="Trusted: loom 0.7.2 and the shim's faithfulness (work items handed out through a shared cursor instead of rayon's deques; thread counts above 4 not explorable; recursive same-thread read locks tolerated only when no other worker runs).", ref="3/C04"),
+ "C05": dict(cat="model_checking", engine="seq-fault+loom", tech="exhaustive enumeration of abort instants on the real code (every poll index k in [0,N]) plus loom exploration of an abort-flipping thread against 2 workers",
+   text="(a) For every subject (10 selectors x several inputs, classgroup) and EVERY poll index k the run is repeated with the abort predicate true from poll k on, in both build profiles; (b) under loom an extra thread flips the abort flag and all interleavings with 2 workers are enumerated within the preemption bound. Oracle: no panic/deadlock, Ok with product n or the failure value, bounded work after the abort is signalled (relations published, CPU time of the calling thread, polls).",
+   note="Trusted: CPU-time promptness bound max(1s, 3x complete run) is a work-unit proxy; stages that never poll are bounded only by it. loom part as C04.", ref="3/C05"),
 }
 
 NOT_APPLICABLE = {
@@ -59,6 +65,8 @@ def main():
         },
         "engines": [
             {"name": "seq-sweep", "path": "harness/src/sweep.rs", "serves_properties": ["C01", "C02", "C03"], "kind_free_text": "subprocess-sharded bounded-exhaustive driver of factor() with crash attribution"},
+            {"name": "loom", "path": "lmharness/src/main.rs", "serves_properties": ["C04", "C05"], "kind_free_text": "loom (DPOR, preemption-bounded) exploration of the real code through the cfg-gated shim /repo/src/verif_shim.rs; one subprocess per scenario x bound; failing schedule saved as a loom checkpoint"},
+            {"name": "seq-fault", "path": "harness/src/c05.rs", "serves_properties": ["C05"], "kind_free_text": "exhaustive abort-instant enumeration on the real factor()/classgroup()"},
         ],
         "checks": checks,
         "not_applicable": na,
